@@ -1,6 +1,7 @@
 CONSTANTS
   CwdVariant = "code"
   StatGuard = TRUE
+  CcStopsAtExisting = TRUE
 INIT Init
 NEXT Next
 INVARIANT Inv
